@@ -778,6 +778,12 @@ func chunkEnds(f []byte) []string {
 func (w *world) opRestart(ri int, keep int) {
 	rep := w.reps[ri]
 	if keep < len(rep.file) {
+		for _, e := range chunkEnds(rep.file) {
+			if e == fmt.Sprint(keep) {
+				w.h.Stat("restart.cut-at-internal-chunk-boundary", 1)
+				w.nt("chunk-boundary-cut")
+			}
+		}
 		rep.file = rep.file[:keep]
 		w.h.Stat("restart.truncated", 1)
 		w.nt("truncated-reload")
@@ -1169,6 +1175,15 @@ func runCase(h *verifx.H, r *verifx.Rng, idx int) {
 				w.opSave(ri)
 			}
 		}
+		// a crash between two chunk writes: restart one replica from its file cut exactly at an internal chunk boundary
+		for ri := 1; ri < len(w.reps); ri++ {
+			if ends := chunkEnds(w.reps[ri].file); len(ends) > 1 && r.Chance(2, 3) {
+				keep := 0
+				fmt.Sscan(ends[r.Intn(len(ends)-1)], &keep)
+				w.opRestart(ri, keep)
+				break
+			}
+		}
 	}
 	for i := 0; i < nops; i++ {
 		switch r.Pick(weights...) {
@@ -1203,7 +1218,10 @@ func runCase(h *verifx.H, r *verifx.Rng, idx int) {
 				keep = r.Range(0, n)
 			case 3:
 				ends := chunkEnds(w.reps[ri].file)
-				if len(ends) > 0 {
+				if len(ends) > 1 && r.Chance(1, 2) {
+					// exactly at an INTERNAL chunk boundary: the file reads without error, yet its tail is missing
+					fmt.Sscan(ends[r.Intn(len(ends)-1)], &keep)
+				} else if len(ends) > 0 {
 					fmt.Sscan(ends[r.Intn(len(ends))], &keep)
 					keep += r.Range(-1, 1)
 					if keep < 0 {
@@ -1311,7 +1329,52 @@ func runWitnessRollback(h *verifx.H, r *verifx.Rng) {
 	h.Stat("cases.witness", 1)
 }
 
+// witness 6: a journal file of two chunks cut exactly at the chunk boundary. It reads back WITHOUT error, but only the
+// first chunk's events are there: the replica must restart from the last event it read, not from the header's version.
+func runWitnessChunkCut(h *verifx.H, r *verifx.Rng) {
+	w := &world{h: h, r: r, intern: map[tlmetadata.Event]int{}, ents: map[key]*entity{}, freed: map[int32][]string{}, tags: map[string]bool{}, dropByKey: map[key]bool{}}
+	w.big = true
+	for i := 0; i < 2; i++ {
+		rep := &replica{up: 0}
+		rep.st = metajournal.MakeMetricsStorage(nil)
+		rep.j, _ = metajournal.LoadJournalFastSlice(&rep.file, 0, false, []metajournal.ApplyEvent{rep.st.ApplyEvent})
+		w.reps = append(w.reps, rep)
+	}
+	h.Op("new 2 0:0")
+	upto := 0
+	for i := 1; i <= 6; i++ {
+		ent := &entity{key: key{format.MetricEvent, int64(i)}, name: fmt.Sprintf("m%d", i), ns: 1}
+		w.ents[ent.key] = ent
+		w.keys = append(w.keys, ent.key)
+		w.ver++
+		e := tlmetadata.Event{Id: ent.key.id, Name: ent.name, EventType: ent.key.typ, Version: w.ver, UpdateTime: uint32(1000 + w.ver), Data: w.makeData(ent)}
+		w.commit(ent, e)
+		w.opSrc(e, &upto, "create")
+	}
+	w.opDeliver(1, 1000, 800*1024, inf)
+	w.opSave(1)
+	ends := chunkEnds(w.reps[1].file)
+	keep := len(w.reps[1].file)
+	if len(ends) > 1 {
+		fmt.Sscan(ends[0], &keep)
+	} else {
+		w.h.Viol("witness-file-not-multichunk", "the saved file has %d chunk(s): the chunk size no longer lets 6 entities of 90-260 KB span two chunks", len(ends))
+	}
+	w.opRestart(1, keep)
+	for guard := 0; guard < 10 && w.opDeliver(1, 1000, 800*1024, inf) > 0; guard++ {
+	}
+	w.oracleSynced("drain")
+	if !w.synced(1) {
+		w.h.Viol("replica-never-catches-up", "replica 1 still behind its upstream after unlimited deliveries")
+	}
+	h.Stat("cases.witness", 1)
+}
+
 func runWitness(h *verifx.H, r *verifx.Rng, idx int) {
+	if idx == 6 {
+		runWitnessChunkCut(h, r)
+		return
+	}
 	if idx == 4 {
 		runWitnessDrafts(h, r)
 		return
